@@ -88,6 +88,11 @@ def mtl_backward(
     if tasks_params is None:
         tasks_params = [_get_leaf_tensors(tensors=[loss], excluded=features) for loss in losses]
 
+    # The parameters may be given as one-shot iterables (e.g. `module.parameters()`): materialize
+    # them before they are iterated over by the checks below.
+    shared_params = list(shared_params)
+    tasks_params = [list(task_params) for task_params in tasks_params]
+
     if len(features) == 0:
         raise ValueError("`features` cannot be empty.")
 
@@ -99,8 +104,6 @@ def mtl_backward(
     if len(losses) != len(tasks_params):
         raise ValueError("`losses` and `tasks_params` should have the same size.")
 
-    shared_params = list(shared_params)
-    tasks_params = [list(task_params) for task_params in tasks_params]
     _check_params_expect_grad(shared_params, tasks_params)
 
     # Task-specific transforms. Each of them computes and accumulates the gradient of the task's
